@@ -31,7 +31,7 @@ def o1(W, ob):
     ext = panics.external_callees(W, fns)
     for p, uses in sorted(ext.items()):
         f, t = uses[0]
-        ob.check(p in std['total'] or p in std['site'], 'decode|unreviewed-external|%s' % p, 'external callee %s is reviewed' % p,
+        ob.check(p in std['total'] or p in std['site'] or panics.external_default_total(t.callee), 'decode|unreviewed-external|%s' % p, 'external callee %s is reviewed / a total std function' % p,
                  'decode reaches `%s`, which is not in the reviewed totality table: any byte string must yield Ok or Err' % p,
                  '%s:%d (%s)' % (f.file, t.line, panics.short_fn(f)))
     # every `?`/return of the closure yields a Result: no unwrap on the decode path (covered by the inventory); loops terminate:
